@@ -107,8 +107,10 @@ class Counted:
         self.order: dict[bytes, int] = {}  # distinct real points in order of first call (functions and Jacobians)
         self.nan_rule = None
         self.raise_rule = None
+        self.jac_nan_rule = None  # the Jacobian is NaN there, the value stays finite (e.g. x/|x| at 0)
         self.raised_keys: set[bytes] = set()
         self.nan_keys: set[bytes] = set()
+        self.jac_nan_keys: set[bytes] = set()
 
     # ----- rules
     def hits(self, rule, x, key) -> bool:
@@ -148,8 +150,13 @@ class Counted:
         return value
 
     def jac(self, x):
-        self._record("j", x)
-        return self.poly.jac(x)
+        key, is_complex = self._record("j", x)
+        jacobian = self.poly.jac(x)
+        if not is_complex and self.hits(self.jac_nan_rule, x, key):
+            self.state["nan_returned"] += 1
+            self.jac_nan_keys.add(key)
+            return jacobian * float("nan")
+        return jacobian
 
     # ----- reading the records
     def distinct_points(self, start: int = 0) -> dict:
@@ -190,6 +197,7 @@ class HarnessProblem:
 
     spec = {"space", "x0" (point spec or None), "obj", "cons": [{"type", "spec"}], "maximize", "linear",
             "feasible_x0", "nan": rule|None, "fail": rule|None, "diff"}
+    optional "jac_nan": rule (the Jacobian of that function is NaN there, its value finite)
     rule = {"fn": index, "kind": "kth", "k": int} | {"fn": index, "kind": "half", "comp", "level", "side"}
     """
 
@@ -217,7 +225,7 @@ class HarnessProblem:
                 fs["c"] = [float(c - vk + target) for c, vk in zip(fs["c"], v)]
         self.polys = [PolyFunction(fs, n_in) for fs in f_specs]
         self.counted = [Counted(p, self.space, cap, self.state) for p in self.polys]
-        for key, attr in (("nan", "nan_rule"), ("fail", "raise_rule")):
+        for key, attr in (("nan", "nan_rule"), ("fail", "raise_rule"), ("jac_nan", "jac_nan_rule")):
             rule = spec.get(key)
             if rule is not None:
                 setattr(self.counted[int(rule["fn"]) % len(self.counted)], attr, rule)
@@ -525,8 +533,11 @@ def doe_cases(draw, caps: dict, names: list):
     n_processes = 2 if draw(st.integers(0, 5)) == 0 else 1
     fail = _rule(draw, 1 + n_cons, 6, n_processes > 1) if draw(st.integers(0, 1)) == 0 else None
     nan = _rule(draw, 1 + n_cons, 6, n_processes > 1) if draw(st.integers(0, 3)) == 0 else None
+    eval_jac = draw(st.integers(0, 3)) == 0
+    # a NaN Jacobian with finite values (a DOE sets stop_if_nan=False: it must be recorded and the DOE must go on)
+    jac_nan = _rule(draw, 1 + n_cons, 6, n_processes > 1) if eval_jac and draw(st.integers(0, 2)) > 0 else None
     problem = {"space": space, "x0": None, "obj": obj, "cons": cons, "maximize": draw(st.integers(0, 5)) == 0, "linear": False,
-               "feasible_x0": False, "nan": nan, "fail": fail, "diff": "user"}
+               "feasible_x0": False, "nan": nan, "fail": fail, "jac_nan": jac_nan, "diff": "user"}
     for var in space["vars"]:
         if draw(st.booleans()):
             var["value"] = None  # a DOE does not need a current value
@@ -535,7 +546,7 @@ def doe_cases(draw, caps: dict, names: list):
         second = {"reset": draw(st.booleans()), "same_seed": draw(st.booleans())}
     return {
         "algo": algo, "problem": problem, "settings": settings, "seed": seed,
-        "eval_jac": draw(st.integers(0, 3)) == 0,
+        "eval_jac": eval_jac,
         "normalize_design_space": draw(st.integers(0, 7)) == 3,
         "use_database": True,
         "n_processes": n_processes,
